@@ -70,13 +70,13 @@ def pyInt? (s : String) : Option Int :=
 structure IPred where
   name : String
   arity : Int
-  deriving Repr, BEq
+  deriving Repr, BEq, DecidableEq
 
 inductive PredListRes where
   | auto
   | preds (ps : List IPred)
   | reject
-  deriving Repr, BEq
+  deriving Repr, BEq, DecidableEq
 
 /-- `PredicateList.__call__(values)`; `none` stands for Python's `None` (option given without value). -/
 def predicateList (values : Option String) : PredListRes :=
